@@ -430,7 +430,9 @@ def listing(directory):
     out = []
     for name in sorted(os.listdir(directory)):
         full = os.path.join(directory, name)
-        with open(full, newline="") as handle:
+        if os.path.islink(full) and not os.path.exists(full):
+            continue        # a dangling link holds nothing: the path reads as absent (as it does for the programs)
+        with open(full, newline="") as handle:       # a link is read through: what a user sees at that path
             out.append([path_json(name), handle.read()])
     return out
 
@@ -584,7 +586,12 @@ def execute(prog, call, indir, outdir, out, table, crash_label=None, crash_write
 
 
 def populate(outdir, files):
+    """files: name -> text, or name -> {"link": target}: a symbolic link to `target` (relative, same directory;
+    the target need not exist)"""
     for name, text in files.items():
+        if isinstance(text, dict):
+            os.symlink(text["link"], os.path.join(outdir, name))
+            continue
         with open(os.path.join(outdir, name), "w") as handle:
             handle.write(text)
 
@@ -935,6 +942,21 @@ def run_plans(ctx):
             for label, idx in plan.get("extras", []):
                 for sname in ("exists+bk1",) + (("empty", "exists+gap") if ctx.thorough else ()):
                     cases.append(bench.one(plan, sname, dict(by_name[sname]), (idx, label, None)))
+            # the output path is a SYMBOLIC LINK (results linked to a project file system): to an existing file
+            # of the directory -- read through, it is "a file previously at that path", so on success its content
+            # must sit under the backup name, the new file at the path, the link's target untouched -- or
+            # dangling (reads as absent).  Deferred programs only (gen_seq writes through the link by design of
+            # builtin open, and the statement's second sentence is not about it)
+            if any(k == "flush" for k, _ in plan["rows"]):
+                kinds_ = [k for k, _ in plan["rows"]]
+                sel = {0, kinds_.index("flush")}
+                for sname, files in (("symlink-existing", {plan["out"]: {"link": "store.dat"}, "store.dat": OLD}),
+                                     ("symlink-existing+bk1", {plan["out"]: {"link": "store.dat"}, "store.dat": OLD,
+                                                               "#%s.1#" % plan["out"]: "B1\n"}),
+                                     ("symlink-dangling", {plan["out"]: {"link": "nowhere.dat"}})):
+                    for point in points:
+                        if point[0] is None or point[0] in sel:
+                            cases.append(bench.one(plan, sname, files, point))
             # relative output path with the output directory as working directory
             for point in points:
                 cases.append(bench.one(plan, "exists+bk1", dict(by_name["exists+bk1"]), point, relative=True))
